@@ -3,10 +3,16 @@
 One *case* = one receiver (list / tuple / string / map / iterator program) and <= 20 operations on it.
 The same case is rendered (i) as one line for the Lean driver `drv_coll` (`model`: the branch-for-branch
 model of Model/Collections*.lean, `spec`: the plain List/finite-map functions of `Coll.Spec`) and (ii) as a
-Laythe program for the real implementation (every operation runs inside a zero-argument lambda called from a
-`try`, the result or `err <Class>` is printed, then the receiver).  Two judgements per case:
+Laythe program for the real implementation (every operation runs inside a `try` — in a zero-argument lambda
+called from it, or, for cases marked `direct`, inline in the `try` of the module-level frame that drives the
+native itself —, the result or `err <Class>` is printed, then the receiver).  Two judgements per case:
 implementation-vs-Spec (Lean `spec` engine; for iterator programs the Python-generator monitor `spec_iter`)
-and model-vs-implementation (the tie)."""
+and model-vs-implementation (the tie).
+
+corpus/C11 runs first on every run: `{"case": ...}` files are cases (optionally with `"gc"`, a forced
+collection schedule), `{"program": "x.lay", "good_stdout": ...}` files are whole programs with their expected
+output — among them the witnesses of the repaired findings D40, D42, D43, D45 and of the iterator-parameter
+repair (546c031), kept as regression inputs.  Known findings still open: D41, D44."""
 import itertools
 import json
 import os
@@ -119,6 +125,24 @@ CALLBACKS = {
     "pair": "fn pair(a, x) { log.push(x); return (a, x); }",
     "raise2r": "fn raise2r(a, x) { log.push(x); if x == 2 { raise Error(\"boom\"); } return a; }",
 }
+# comparators of `sort`: name -> Laythe expression (the Lean twin is `cmpOf` in Driver/CollMain.lean)
+COMPARATORS = {
+    "sub": "|a, b| a - b",
+    "rsub": "cmprsub",
+    "half": "|a, b| (a - b) / 2",
+    "nil": "|a, b| nil",
+    "nan": "cmpnan",
+    "raise": "cmpraise",
+    "bad2": "cmpbad2",
+}
+COMPARATOR_FNS = ("fn cmprsub(a, b) { return b - a; }\n"
+                  "fn cmpnan(a, b) { return 0/0; }\n"
+                  "fn cmpraise(a, b) { raise Error(\"boom\"); }\n"
+                  "fn cmpbad2(a, b) { if a == 2 || b == 2 { raise Error(\"boom\"); } return a - b; }\n")
+# values that are not iterators, for parameters declared `Enumerator`: token -> Laythe text
+NON_ITERS = {"v:nil": "nil", "v:true": "true", "v:3": "3", "v:str": "\"a\"", "v:list": "[1, 2]", "v:map": "{\"a\": 1}",
+             "v:tuple": "(1, 2)", "v:cls": "List", "v:fn": "id"}
+
 CB_NUM2NUM = ["inc", "dbl", "loginc"]
 CB_NUMPRED = ["gt1", "lt3", "loggt1"]
 CB_ANY = ["id", "logid", "raise2", "nbpush", "nblen"]
@@ -130,10 +154,14 @@ PRELUDE = ("let r = nil; let ok = true; let f = nil;\n"
            "let l = nil; let t = nil; let s = nil; let m = nil;\n"
            "let log = []; let nb = [0];\n"
            + "".join("let it%d = nil; " % i for i in range(8)) + "\n"
-           + "\n".join(CALLBACKS.values()) + "\n")
+           + "\n".join(CALLBACKS.values()) + "\n" + COMPARATOR_FNS)
 
 RUN_OP = ("ok = true; try { r = f(); } catch e: Error { ok = false; print(\"err \" + e.cls().name()); } "
           "if ok { print(r); }\n")
+# `direct` cases: the operation runs inline in the try, so the handler lives in the frame that drives the
+# native (in scope since 3c7f4d3: the native returns the error and its caller's handler takes it)
+RUN_OP_DIRECT = ("ok = true; try { %s } catch e: Error { ok = false; print(\"err \" + e.cls().name()); } "
+                 "if ok { print(r); }\n")
 
 
 # ---------------------------------------------------------------------------------------------
@@ -179,7 +207,7 @@ def op_body(kind, op):
         if o == "slice":
             return "return %s.slice(%s);" % (x, ", ".join(lay_arg(a) for a in w[1:]))
         if o == "sort":
-            return "return l.sort(|a, b| a - b);"
+            return "return l.sort(%s);" % COMPARATORS[w[1] if len(w) > 1 else "sub"]
         if o == "iterlist":
             if kind == "list":
                 return "l = l.iter().list(); return \"ok\";"
@@ -224,8 +252,10 @@ def op_body(kind, op):
             elif a in ("take", "skip"):
                 e = "it%s.%s(%s)" % (k, a, lay_arg(w[3]))
             else:
-                e = "it%s.%s(%s)" % (k, a, ", ".join("it" + j for j in w[3:]))
+                e = "it%s.%s(%s)" % (k, a, ", ".join(NON_ITERS[j] if j.startswith("v:") else "it" + j for j in w[3:]))
             return "it%s = %s; return \"ok\";" % (k, e)
+        if o == "bc":
+            return "return %s.collect(%s);" % ({"list": "List", "tuple": "Tuple"}[w[1]], NON_ITERS[w[2]])
         if o == "next":
             return "return it%s.next();" % w[1]
         if o == "cur":
@@ -283,8 +313,11 @@ def render(case):
     else:
         after = "print(log); print(nb);\n"
     for op in case["ops"]:
-        out.append("f = || { %s };\n" % op_body(k, op))
-        out.append(RUN_OP)
+        if case.get("direct"):
+            out.append(RUN_OP_DIRECT % op_body(k, op).replace("return ", "r = "))
+        else:
+            out.append("f = || { %s };\n" % op_body(k, op))
+            out.append(RUN_OP)
         out.append(after)
     return "".join(out)
 
@@ -309,7 +342,8 @@ def run_impl(cases, gc=None, keep_dir=None):
             p = os.path.join(d, "c%06d.lay" % i)
             with open(p, "w") as f:
                 f.write(render(c))
-            reqs.append((("--gc %s " % gc) if gc else "") + p)
+            g = c.get("gc") or gc
+            reqs.append((("--gc %s " % g) if g else "") + p)
         res = common.run_batch(reqs, timeout=900)
         out = []
         for r in res:
@@ -522,6 +556,12 @@ def spec_iter(ops):
                         judged = False
                     v.it = itertools.islice(v.it, min(n[1], 10 ** 9), None)
                 elif a in ("zip", "chain"):
+                    if any(j.startswith("v:") for j in w[3:]):
+                        for j in w[3:]:
+                            if not j.startswith("v:"):
+                                V[j]
+                        # a parameter declared as an iterator: the call is rejected, nothing is consumed
+                        raise SpecErr("RuntimeError")
                     others = [V.pop(j) for j in w[3:]]
                     allv = [v] + others
                     its = [x.it for x in allv]
@@ -532,6 +572,8 @@ def spec_iter(ops):
                     v.effect = any(x.effect for x in allv)
                 v.curok = False
                 res = "ok"
+            elif w[0] == "bc":
+                raise SpecErr("RuntimeError")
             elif w[0] == "next":
                 v = V[w[1]]
                 v.fresh = False
@@ -620,22 +662,6 @@ def spec_iter(ops):
 
 
 # ---------------------------------------------------------------------------------------------
-# known-finding signatures (Spec judgement is switched off from the first op that matches)
-
-def list_signature(op):
-    w = op.split()
-    # D40: List.remove / List.insert truncate a fractional or NaN index instead of raising
-    return w[0] in ("remove", "insert") and len(w) > 1 and is_fractional_arg(w[1])
-
-
-def gc_signature(case):
-    """D45: under a forced collection schedule a reduce/last over heap values uses freed objects."""
-    if case["kind"] != "iter":
-        return False
-    return any((" reduce " in op and op.split()[-1] == "pair") for op in case["ops"])
-
-
-# ---------------------------------------------------------------------------------------------
 # generators
 
 VALS_MIXED = [None, True, False, 0, 1, 2, 3, -1, 7, "a", "b", "é", "", "aé\U0001F600"]
@@ -700,11 +726,17 @@ def gen_list_case(rng, maxops):
         elif r < 0.94:
             ops.append("rev")
         elif r < 0.96:
-            ops.append("sort" if intonly else "rev")
+            if intonly:
+                ops.append("sort " + rng.choice(["sub", "sub", "rsub", "half", "bad2", "nil", "nan", "raise"]))
+            else:
+                ops.append("sort " + rng.choice(["sub", "rsub", "nil", "nan", "raise"]))
         elif r < 0.98:
             ops.append("iterlist")
         else:
             ops.append("slicelist")
+    if rng.random() < 0.12:
+        # the list `Iter.list` pre-sizes from the size hint (capacity = length, 0 for an empty list), then growth
+        ops.insert(rng.randint(0, min(2, len(ops))), "iterlist")
     return {"kind": "list", "init": init, "ops": ops}
 
 
@@ -845,6 +877,8 @@ def gen_iter_case(rng, maxops):
         r = rng.random()
         if r < 0.10:
             new_source()
+        elif r < 0.115:
+            ops.append("bc %s %s" % (rng.choice(["list", "tuple"]), rng.choice(list(NON_ITERS))))
         elif r < 0.24:
             wrong = rng.random() < 0.04
             if ty == "num" or wrong:
@@ -874,6 +908,12 @@ def gen_iter_case(rng, maxops):
             m = rng.choice([0, 1, 1, 1, 2])
             js = rng.sample(others, min(m, len(others)))
             which = rng.choice(["zip", "chain"])
+            if rng.random() < 0.15:
+                # a value that is not an iterator among the arguments: rejected, nothing consumed
+                args = ["%d" % j for j in js]
+                args.insert(rng.randint(0, len(args)), rng.choice(list(NON_ITERS)))
+                ops.append("ad %d %s %s" % (k, which, " ".join(args)))
+                continue
             ops.append("ad %d %s%s" % (k, which, "".join(" %d" % j for j in js)))
             tys = {live[j] for j in js} | {ty}
             for j in js:
@@ -934,6 +974,26 @@ def exhaustive_cases(full):
         s = strs[n]
         for ch in chunks(ro):
             cases.append({"kind": "str", "init": s, "ops": ch})
+    # growth of the pre-sized lists of Iter.list (capacity = size hint = length; 0 for the empty list)
+    for n in range(4):
+        init = [10 * (i + 1) for i in range(n)]
+        for first in (["push 1"], ["insert 0 1"], ["insert %d 1" % n], ["push 1 2 3 4 5"], ["pop", "push 1"],
+                      ["remove 0", "push 1"], ["clear", "push 1", "push 2"]):
+            cases.append({"kind": "list", "init": init,
+                          "ops": ["iterlist"] + first + ["push 7", "insert 1 8", "push 9 9 9", "len", "pop"]})
+    # sort: every comparator on lengths 0-3 (and with a non-number among the elements)
+    for cmp_ in COMPARATORS:
+        for init in ([], [3], [3, 1], [2, 1], [3, 1, 2], [5, 3, 4, 1], [3, "a"], [1, None, 2]):
+            if cmp_ == "bad2" and 2 in init and any(not is_num(x) for x in init):
+                continue
+            cases.append({"kind": "list", "init": init, "ops": ["sort " + cmp_, "len"]})
+    # parameters declared as iterators: every kind of non-iterator, in every position
+    for v in NON_ITERS:
+        for which in ("zip", "chain"):
+            for eargs in ([v], ["1", v], [v, "1"]):
+                cases.append({"kind": "iter", "ops": ["new 0 list 1,2", "new 1 list 3,4", "ad 0 %s %s" % (which, " ".join(eargs)),
+                                                      "t 0 list", "t 1 list"]})
+        cases.append({"kind": "iter", "ops": ["bc list " + v, "bc tuple " + v]})
     # take / skip / times / until over the whole argument universe
     for a in args:
         for n in (0, 3):
@@ -977,12 +1037,9 @@ def spec_lines(case, spec_out):
     out = list(spec_out) + [None] * (per * n - len(spec_out))
     out = out[:per * n]
     skipped = 0
-    off = False
     for i, op in enumerate(case["ops"]):
-        if k == "list" and list_signature(op):
-            off = True
         base = i * per
-        if off or base >= len(spec_out) or spec_out[base] in ("bad-op", "bad-case", "no-spec"):
+        if base >= len(spec_out) or spec_out[base] in ("bad-op", "bad-case", "no-spec"):
             for j in range(per):
                 out[base + j] = None
             skipped += 1
@@ -990,7 +1047,8 @@ def spec_lines(case, spec_out):
 
 
 def model_ok(model_out):
-    return not any(x in ("bad-op", "bad-case", "bad-var", "no-spec") or x.startswith("<driver") for x in model_out)
+    # "UB" = the model wrote outside an allocation: excluded by C11_list_no_write_outside, so never expected
+    return not any(x in ("bad-op", "bad-case", "bad-var", "no-spec", "UB") or x.startswith("<driver") for x in model_out)
 
 
 def judge_case(case, model_out, spec_out, status, impl):
@@ -1016,27 +1074,10 @@ def judge_case(case, model_out, spec_out, status, impl):
     return spec_fail, tie_fail, skipped
 
 
-def truncate_ub(cases):
-    """Cut every case before the first op on which the model writes past an allocation (known finding D42:
-    push/insert on the capacity-0 list that `[].iter().list()` returns)."""
-    mo = run_driver("model", cases)
-    out, cut = [], 0
-    for c, m in zip(cases, mo):
-        if "UB" in m:
-            per = lines_per_op(c["kind"])
-            k = m.index("UB") // per
-            c = dict(c)
-            c["ops"] = c["ops"][:k]
-            cut += 1
-        if c["ops"]:
-            out.append(c)
-    return out, cut
-
-
 def one_case_fails(case, want):
     """Re-run a single case; want = 'spec' | 'tie' | 'any'."""
     mo = run_driver("model", [case])[0]
-    if not model_ok(mo) or "UB" in mo:
+    if not model_ok(mo):
         return False
     so = run_driver("spec", [case])[0] if case["kind"] != "iter" else []
     st, impl = run_impl([case])[0]
@@ -1050,6 +1091,16 @@ def one_case_fails(case, want):
 
 def shrink_case(case, want):
     cur = dict(case)
+    # the shortest failing prefix first (memory-safety failures are not monotone under single deletions)
+    for n in range(1, len(cur["ops"])):
+        cand = dict(cur)
+        cand["ops"] = cur["ops"][:n]
+        try:
+            if one_case_fails(cand, want):
+                cur = cand
+                break
+        except Exception:
+            pass
     changed = True
     while changed:
         changed = False
@@ -1131,7 +1182,22 @@ def check_cases(ctx, label, cases, gc=None, spec_only=False):
     return (first_spec is None and first_tie is None), first_spec, first_tie
 
 
-def report(ctx, label, first_spec, first_tie, searcher):
+def report(ctx, label, first_spec, first_tie, searcher, gc=None):
+    if gc:
+        # the failing case carries the collection schedule of its stream: shrinking and replay use it too
+        if first_spec:
+            first_spec = (dict(first_spec[0], gc=first_spec[0].get("gc") or gc), first_spec[1])
+        if first_tie:
+            first_tie = (dict(first_tie[0], gc=first_tie[0].get("gc") or gc), first_tie[1])
+        for which, want in ((first_spec, "spec"), (first_tie, "tie")):
+            # a coin schedule depends on every allocation before the failure: prefer the deterministic
+            # collect-at-every-allocation schedule for shrinking when the case fails under it as well
+            if which and which[0]["gc"] != "every:1":
+                try:
+                    if one_case_fails(dict(which[0], gc="every:1"), want):
+                        which[0]["gc"] = "every:1"
+                except Exception:
+                    pass
     if first_spec:
         c, sf = first_spec
         small = shrink_case(c, "spec")
@@ -1168,6 +1234,9 @@ def random_cases(rng, nlist, ntuple, nstr, nmap, niter, maxops=20):
     cs += [gen_str_case(rng, maxops) for _ in range(nstr)]
     cs += [gen_map_case(rng, maxops) for _ in range(nmap)]
     cs += [gen_iter_case(rng, maxops) for _ in range(niter)]
+    for c in cs:
+        if rng.random() < 0.3:
+            c["direct"] = True
     return cs
 
 
@@ -1175,7 +1244,6 @@ def search(ctx, scale=10):
     """Bigger, Spec-judged only: a concrete input on which the implementation breaks the property."""
     rng = random.Random(ctx.seed * 7907 + 3)
     cases = exhaustive_cases(full=False) + random_cases(rng, 600 * scale, 150 * scale, 250 * scale, 200 * scale, 800 * scale)
-    cases, _ = truncate_ub(cases)
     ok, fs, _ = check_cases(ctx, "search", cases, spec_only=True)
     if fs:
         c, sf = fs
@@ -1210,13 +1278,56 @@ def replay_findings(ctx):
 # ---------------------------------------------------------------------------------------------
 
 def load_corpus():
+    """-> (cases, programs): `{"case": ...}` files and `{"program": "x.lay", "good_stdout": ...}` files."""
     d = os.path.join(common.VERIF, "corpus", PROP)
-    out = []
+    cases, programs = [], []
+    if os.environ.get("C11_NO_CORPUS"):
+        return cases, programs      # testing the check itself: do the generated streams alone find a defect?
     if os.path.isdir(d):
         for f in sorted(os.listdir(d)):
-            if f.endswith(".json"):
-                out.append(json.load(open(os.path.join(d, f)))["case"])
-    return out
+            if not f.endswith(".json"):
+                continue
+            r = json.load(open(os.path.join(d, f)))
+            if "program" in r:
+                r["_file"] = os.path.join("corpus", PROP, f)
+                programs.append(r)
+            else:
+                c = r["case"]
+                if r.get("gc"):
+                    c = dict(c, gc=r["gc"])
+                cases.append(c)
+    return cases, programs
+
+
+def run_program(meta):
+    """One corpus program (a past finding's witness) -> (failed, status, stdout)."""
+    prog = os.path.join(common.VERIF, "corpus", PROP, meta["program"])
+    res = common.run_batch([(("--gc %s " % meta["gc"]) if meta.get("gc") else "") + prog], timeout=120)[0]
+    st = res.get("status", "?") if res else "CRASH:missing"
+    so = res.get("stdout", "") if res else ""
+    return not (st == "Ok:0" and so == meta["good_stdout"]), st, so
+
+
+def check_programs(ctx, programs):
+    """The regression programs: each must end normally with exactly its expected output."""
+    n_bad = 0
+    for meta in programs:
+        bad, st, so = run_program(meta)
+        ctx.cov["traces_validated_against_impl"] += 1
+        ctx.count_case("program " + meta["program"] + " " + str(meta.get("gc")))
+        if bad and not n_bad:
+            prog = os.path.join(common.VERIF, "corpus", PROP, meta["program"])
+            ctx.cov["impl_vs_spec_failures"] += 1
+            ctx.violation("corpus_program_spec", {
+                "engine": "coll", "kind": "implementation-vs-spec", "seed": ctx.seed,
+                "what": "regression program %s (%s): expected status Ok:0 and the output below, the implementation "
+                        "ended with %s and printed %r" % (meta["program"], meta.get("what", ""), st, so),
+                "program_file": os.path.join("corpus", PROP, meta["program"]), "program": open(prog).read(),
+                "gc": meta.get("gc"), "good_stdout": meta["good_stdout"], "impl_status": st, "impl_stdout": so,
+                "corpus_entry": meta["_file"], "replay": "./check C11 --replay <this file>"})
+        n_bad += bad
+    ctx.stream_stat("corpus_programs", programs=len(programs), failing=n_bad)
+    return n_bad == 0
 
 
 def run(ctx):
@@ -1233,11 +1344,20 @@ def run(ctx):
         return
     ctx.cov["rule"] = ("one case = one receiver (list/tuple/string/map/iterator program) and <= 20 operations; boundary "
                        "indices (0, len-1, len, -len, -len-1, +-0.5, +-1.5, NaN, +-inf, +-2^53, +-2^63, +-2^64, non-numbers) "
-                       "exhaustively for lengths 0-4 on get/set/insert/remove/slice/take/skip/times/until; multi-byte strings; "
-                       "callbacks that log, raise, or grow a neighbouring list; non-trivial = an error was raised, or an "
-                       "iterator program, or more than two operations; distinct by the case text")
+                       "exhaustively for lengths 0-4 on get/set/insert/remove/slice/take/skip/times/until; growth of "
+                       "pre-sized lists from capacity 0-3; every sort comparator (consistent, fractional, non-number, NaN, "
+                       "raising) on lengths 0-4; every kind of non-iterator argument to zip/chain/List.collect/"
+                       "Tuple.collect; multi-byte strings; callbacks that log, raise, or grow a neighbouring list; "
+                       "operations run in a lambda under a try or (30%) inline in the try of the driving frame; "
+                       "non-trivial = an error was raised, or an iterator program, or more than two operations; "
+                       "distinct by the case text")
+    corpus, programs = load_corpus()
     if not proved:
         what, detail = ctx.broken
+        # the regression programs first: the shortest concrete input when a repaired defect is back
+        if not check_programs(ctx, programs):
+            replay_findings(ctx)
+            return      # one root cause, one VIOLATION line
         found = search(ctx, scale=ctx.n(4, 10))
         if found:
             found["broken_obligation"] = what
@@ -1247,20 +1367,19 @@ def run(ctx):
         else:
             ctx.violation("proof", {"kind": "proof-obligation-failed", "broken": what, "detail": detail}, no_input=True)
     replay_findings(ctx)
+    if proved and not check_programs(ctx, programs):
+        return
     rng = random.Random(ctx.seed * 1000003 + 11)
     streams = []
-    corpus = load_corpus()
     if corpus:
         streams.append(("corpus", corpus, None))
     streams.append(("boundary", exhaustive_cases(full=not ctx.quick()), None))
-    q = ctx.n(1, 15)
+    q = ctx.n(2, 40)
     streams.append(("random", random_cases(rng, 4000 * q, 1000 * q, 1500 * q, 1500 * q, 6000 * q), None))
-    gc_cases = [c for c in random_cases(rng, 600 * q, 0, 200 * q, 200 * q, 1200 * q) if not gc_signature(c)]
+    gc_cases = random_cases(rng, 600 * q, 0, 200 * q, 200 * q, 1200 * q)
     streams.append(("random_gc", gc_cases, "coin:1/3:%d" % ctx.seed))
-    streams.append(("random_gc_every", gc_cases[:len(gc_cases) // 3], "every:1"))
+    streams.append(("random_gc_every", gc_cases[::3], "every:1"))
     for label, cases, gc in streams:
-        cases, cut = truncate_ub(cases)
-        ctx.stream_stat(label, cut_before_capacity0_write=cut)
         ok, fs, ft = check_cases(ctx, label, cases, gc=gc)
         if label == "random" and cases:
             for kind in ("list", "iter", "str"):
@@ -1268,26 +1387,34 @@ def run(ctx):
                 if c:
                     ctx.sample({"case": case_line(c)[:400], "impl": run_impl([c])[0][1][:12]})
         if not ok:
-            report(ctx, label, fs, ft, search)
+            report(ctx, label, fs, ft, search, gc=gc)
             return
     ctx.assumptions += [
         "the models (Model/Collections.lean, Model/CollectionsIter.lean) are hand-written from the Rust text; agreement is checked on the streams, not proved",
         "numbers are modelled as integers plus fractional/NaN/infinity flags; only integer-valued numbers are printed",
         "iterators are used linearly (an iterator given to zip/chain/an adaptor is not used again): the model has no aliasing between iterators",
         "map iteration order, NaN and -0 keys are not compared (D8)",
-        "each operation runs in a zero-argument lambda called from a module-level try: an error leaving a native callback into a handler of the *same* frame resumes inside the native's nested interpreter loop (the defect behind D12), which is C04's business",
+        "each operation runs under a module-level try, either in a zero-argument lambda called from it or (30% of the random cases) inline, so that the handler is in the frame that drives the native; nested handlers and handlers inside callbacks are C04's business",
+        "sort comparators are pure functions of their two arguments whose failures all have one class per case (which failing comparison comes first is the sorting algorithm's choice)",
         "the Spec of iterator programs is the Python-generator monitor spec_iter (Python's own lazy map/filter/islice/zip/chain)",
     ]
 
 
 def replay(path):
     r = json.load(open(path))
-    case = r["case"]
     common.cargo_build(bin="vharness")
+    if "case" not in r and "program_file" in r:
+        meta = {"program": os.path.basename(r["program_file"]), "good_stdout": r["good_stdout"], "gc": r.get("gc")}
+        bad, st, so = run_program(meta)
+        print("program :", r["program_file"], "gc", r.get("gc"))
+        print("expected: Ok:0", repr(r["good_stdout"]))
+        print("impl    :", st, repr(so))
+        return 1 if bad else 0
+    case = r["case"]
     common.lake_build(["drv_coll"])
     mo, sf, tf = rejudge(case)
     st, impl = run_impl([case])[0]
-    print("case :", case_line(case))
+    print("case :", case_line(case), ("gc " + case["gc"]) if case.get("gc") else "", "direct" if case.get("direct") else "")
     print("model:", mo)
     print("impl :", st, impl)
     print("implementation-vs-spec:", sf)
